@@ -1,4 +1,4 @@
-HOOK_COMMITS = ["d183566"]
+HOOK_COMMITS = ["d183566", "d0e1250"]
 NOTES = "Driver: ./check <ID> --tier quick|thorough. Exit 0 held / 1 VIOLATION / 2 inconclusive (harness trouble, never a violation). Known findings: known_findings.json."
 NOT_APPLICABLE = {}
 META = {
@@ -19,5 +19,29 @@ META = {
         "design_ref": "DESIGN.md section 4 C17",
         "note": "Store fake = map with JSON round trip (same encoding as the etcd/MySQL replicate stores). Concurrency of reports is not explored (the implementation serialises on one mutex).",
         "technique": "property-based testing (rapid), stateful model-based oracle",
+    },
+    "C07": {
+        "text": "Round-trip oracle through an independent decoder: the bytes captured at the DataHandler seam are decoded with Milvus' own unmarshal dispatcher (as the receiving proxy does) and compared message by message with deep copies of what was handed to the real ChannelWriter, for generated packs of all supported types, with/without replicate id and name mapping, concurrent channels, and failing / malformed downstream answers.",
+        "design_ref": "DESIGN.md section 4 C07",
+        "note": "Trusts the Milvus decoder and proto.Equal. The real gRPC handler is replaced by a recording fake at api.DataHandler.",
+        "technique": "property-based testing (rapid), round-trip through independent decoder",
+    },
+    "C08": {
+        "text": "The decision function is checked exhaustively over all order relations x presence x extreme magnitudes against a table re-derived from the statement; generated create/drop/re-create timelines with reordered event/op streams and a restart with the horizon table check the black-box consequence (stale operations skipped without touching newer incarnations, current ones applied exactly once) against an incarnation-tagging downstream model.",
+        "design_ref": "DESIGN.md section 4 C08",
+        "note": "Part 1 is complete for its finite abstraction. Part 2 samples; the run stops at the first not-ready error because the service would pause the task there.",
+        "technique": "exhaustive decision-table differential + stateful property-based testing (rapid) with reference model",
+    },
+    "C09": {
+        "text": "Differential against a reference mapping function over the full product of operation kinds x source database x mapping shape, comparing routing database, request name fields, probe names and names inside serialized DML. Found and fixed four defects (AlterIndex routed to default; ReleasePartitions routed by source db; exact vs whole-db precedence depending on map order; partition events re-probing with mapped db).",
+        "design_ref": "DESIGN.md section 4 C09",
+        "note": "Routing is observed as ReplicateParam.Database at the api.DataHandler seam (what MilvusDataHandler uses to pick the client).",
+        "technique": "property-based testing (rapid), differential against reference mapping",
+    },
+    "C20": {
+        "text": "Every generated op message / API event is pushed through the real writer and the single resulting downstream request is deep-compared with a copy of the source (identity fields, list filtering, schema, shard number, consistency, properties, replication stamp); malformed packs must be rejected with zero downstream calls.",
+        "design_ref": "DESIGN.md section 4 C20",
+        "note": "Names are excluded here (C09). Kafka downstream not exercised.",
+        "technique": "property-based testing (rapid), field-by-field differential with the source message",
     },
 }
